@@ -197,4 +197,45 @@ def rule_disabled(ctx):
                   '%s does not branch on config.%s' % (bpat, fld))
 
 
-RULES = [rule_table, rule_try_update, rule_disabled]
+
+def rule_outcome_remembered(ctx):
+    """Every CA that asks for the same rpkiNotify URI in a run gets the same outcome: what load_repository remembers in
+    `updated` is the fresh outcome itself, and a later call answers with the same function of the remembered value as the
+    first call answered with of the fresh one (LoadResult::read)."""
+    b = ctx.body('collector::rrdp::base::Run::load_repository')
+
+    def strip(d):
+        prev = None
+        while prev != d:
+            prev = d
+            d = re.sub(r'^call:(?:\w+::)*(?:Clone>?::clone|Deref>?::deref|AsRef>?::as_ref|Option::as_ref)\((.*)\)$', r'\1', d)
+        return d
+    n_hit = n_miss = 0
+    for p in enumerate_paths(b, ctx.facts):
+        if p.kind != 'return':
+            continue
+        cm = p.cond_map()
+        hit = any(v.startswith('call:HashMap::get(') and 'updated' in v and set(l) == {'Some'} for v, l in cm.items())
+        ins = [p.event_args.get(s.bb) for s in p.events if s.callee.endswith('HashMap::insert') and 'updated' in ((p.event_args.get(s.bb) or [''])[0] or '')]
+        o = p.outcome or ''
+        if hit:
+            n_hit += 1
+            m = re.match(r'^(?:Result::Ok\()?call:((?:\w+::)*\w+)\((.*)\)(?:@(?:Continue|Ok)\.0\))?$', o)
+            ok = bool(m) and m.group(1).endswith('LoadResult::read') and re.match(r'^call:HashMap::get\(.*updated.*\)@Some\.0$', strip(m.group(2)) or '')
+            ctx.check(bool(ok), 'K4', 'load_repository:remembered-outcome-returned', 'a later call returns read() of the remembered outcome',
+                      'for a repository already tried in this run load_repository returns `%s` instead of LoadResult::read of the remembered '
+                      'outcome: CAs sharing the repository get different outcomes (and different fallback decisions)' % o[:160])
+        elif ins:
+            n_miss += 1
+            stored = strip(ins[0][2] if ins[0] and len(ins[0]) > 2 else '?')
+            m = re.match(r'^Result::Ok\(call:((?:\w+::)*\w+)\((.*)\)@(?:Continue|Ok)\.0\)$', o)
+            ok = bool(m) and m.group(1).endswith('LoadResult::read') and strip(m.group(2)) == stored
+            ctx.check(bool(ok), 'K4', 'load_repository:fresh-outcome-remembered', 'the remembered value is the outcome whose read() is returned',
+                      'load_repository returns `%s` but remembers `%s` for later calls in this run: the outcome (Updated / Current / Stale / '
+                      'Unavailable) later CAs see differs from what the first CA saw' % (o[:120], stored[:120]))
+        elif o.startswith('Result::Ok('):
+            ctx.bad('K4', 'load_repository:outcome-not-remembered', 'load_repository returns `%s` without recording the outcome in `updated`' % o[:120])
+    ctx.floor('K4', 'memo-hit paths of load_repository', n_hit, 1)
+    ctx.floor('K4', 'memo-miss paths of load_repository', n_miss, 2)
+
+RULES = [rule_table, rule_try_update, rule_disabled, rule_outcome_remembered]
